@@ -63,7 +63,7 @@ def Covers (s0 s2 : CVol) (order : List Nat) : Prop :=
 theorem wf_compact {s0 : CVol} (hw : WF s0) (alg nowSec : Nat) : WF (compact s0 alg nowSec) :=
   ⟨hw.bound, hw.own, hw.mem, hw.len⟩
 
-theorem core (s0 : CVol) (hw : WF s0) (alg nowSec : Nat) (ops : List (Nat × Op)) (order : List Nat) (t : Nat)
+theorem core (s0 : CVol) (hw : WF s0) (hnz : s0.ilog ≠ []) (alg nowSec : Nat) (ops : List (Nat × Op)) (order : List Nat) (t : Nat)
     (hcov : Covers s0 (beforeCommit s0 alg nowSec ops) order) :
     (beforeCommit s0 alg nowSec ops).snap = some (snapOf s0 alg nowSec) ∧
     ∃ f, makeup (beforeCommit s0 alg nowSec ops) (snapOf s0 alg nowSec) order t = some f ∧
@@ -105,7 +105,8 @@ theorem core (s0 : CVol) (hw : WF s0) (alg nowSec : Nat) (ops : List (Nat × Op)
       · intro k _ e he; simp [lastFor] at he
     · simp only [hlen, if_false]
       have hrev : s2.rev = s0.rev := hs.hrev
-      simp only [hrev, ne_eq, not_true_eq_false, if_false, hsuf]
+      have hnz' : ¬ s0.ilog.length = 0 := fun h => hnz (List.eq_nil_of_length_eq_zero h)
+      simp only [hrev, ne_eq, not_true_eq_false, if_false, hsuf, hnz']
       apply makeupFold_char
       · intro k e he hv
         have hk := hs.key k
@@ -247,20 +248,22 @@ theorem core (s0 : CVol) (hw : WF s0) (alg nowSec : Nat) (ops : List (Nat × Op)
 
 /-! ## the theorems -/
 
-/-- **Compaction is invisible to readers** — partial: for EVERY well-formed volume `s0` (in particular
+/-- **Compaction is invisible to readers** — partial: for EVERY well-formed volume `s0` whose .idx is not
+    empty when the copy starts (on an empty .idx makeupDiff's backward loop underflows and the whole
+    compaction is discarded: `discarded_on_empty_idx_witness`; in particular
     every volume reached from a fresh one, `wf_reachable`), both copy algorithms, every list of
     operations issued while the copy runs, every iteration order of makeupDiff's map and all clocks,
     the read of id `k` after `CommitCompact` equals the read before it — unless `k` holds an empty blob,
     or its record is removed by the vacuum TTL filter, or the reload truncates the .dat (the three
     families of recorded findings). -/
-theorem compaction_invisible_partial (s0 : CVol) (hw : WF s0) (alg nowSec : Nat) (ops : List (Nat × Op))
+theorem compaction_invisible_partial (s0 : CVol) (hw : WF s0) (hnz : s0.ilog ≠ []) (alg nowSec : Nat) (ops : List (Nat × Op))
     (order : List Nat) (t t' k : Nat)
     (hcov : Covers s0 (beforeCommit s0 alg nowSec ops) order)
     (hne : ¬ EmptyBlob (beforeCommit s0 alg nowSec ops) k)
     (httl : ¬ TtlDropped s0 (beforeCommit s0 alg nowSec ops) nowSec k)
     (hcut : NoTruncation (beforeCommit s0 alg nowSec ops) order t) :
     view (afterCommit s0 alg nowSec ops order t) t' k = view (beforeCommit s0 alg nowSec ops) t' k := by
-  obtain ⟨hsnap, f, hmk, hv⟩ := core s0 hw alg nowSec ops order t hcov
+  obtain ⟨hsnap, f, hmk, hv⟩ := core s0 hw hnz alg nowSec ops order t hcov
   unfold NoTruncation truncates at hcut
   rw [hsnap] at hcut; simp only [hmk] at hcut
   have hcut : cutAt f.2.2 f.1 = none := by
@@ -280,12 +283,12 @@ theorem compaction_invisible_partial (s0 : CVol) (hw : WF s0) (alg nowSec : Nat)
 
 /-- **No resurrection** — full: whatever was written, deleted, compacted (either algorithm) and
     replayed, an id that is not readable before the commit is not readable after it. -/
-theorem no_resurrection (s0 : CVol) (hw : WF s0) (alg nowSec : Nat) (ops : List (Nat × Op))
+theorem no_resurrection (s0 : CVol) (hw : WF s0) (hnz : s0.ilog ≠ []) (alg nowSec : Nat) (ops : List (Nat × Op))
     (order : List Nat) (t t' k : Nat)
     (hcov : Covers s0 (beforeCommit s0 alg nowSec ops) order)
     (hgone : view (beforeCommit s0 alg nowSec ops) t' k = none) :
     view (afterCommit s0 alg nowSec ops order t) t' k = none := by
-  obtain ⟨hsnap, f, hmk, hv⟩ := core s0 hw alg nowSec ops order t hcov
+  obtain ⟨hsnap, f, hmk, hv⟩ := core s0 hw hnz alg nowSec ops order t hcov
   have h1 : view (afterCommit s0 alg nowSec ops order t) t' k = view (loadedNoCut (beforeCommit s0 alg nowSec ops) f) t' k ∨
       view (afterCommit s0 alg nowSec ops order t) t' k = none := by
     unfold afterCommit commit
@@ -306,15 +309,15 @@ theorem no_resurrection (s0 : CVol) (hw : WF s0) (alg nowSec : Nat) (ops : List 
 theorem compaction_invisible_from_fresh (kind : Kind) (ttl : Nat × Nat) (pre ops : List (Nat × Op)) (alg nowSec : Nat)
     (order : List Nat) (t t' k : Nat) :
     let s0 := runOps (CVol.init kind ttl) pre
-    Covers s0 (beforeCommit s0 alg nowSec ops) order →
+    s0.ilog ≠ [] → Covers s0 (beforeCommit s0 alg nowSec ops) order →
     (view (beforeCommit s0 alg nowSec ops) t' k = none → view (afterCommit s0 alg nowSec ops order t) t' k = none) ∧
     (¬ EmptyBlob (beforeCommit s0 alg nowSec ops) k → ¬ TtlDropped s0 (beforeCommit s0 alg nowSec ops) nowSec k →
       NoTruncation (beforeCommit s0 alg nowSec ops) order t →
       view (afterCommit s0 alg nowSec ops order t) t' k = view (beforeCommit s0 alg nowSec ops) t' k) := by
-  intro s0 hcov
+  intro s0 hnz hcov
   have hw := wf_reachable kind ttl pre
-  exact ⟨no_resurrection s0 hw alg nowSec ops order t t' k hcov,
-    fun h1 h2 h3 => compaction_invisible_partial s0 hw alg nowSec ops order t t' k hcov h1 h2 h3⟩
+  exact ⟨no_resurrection s0 hw hnz alg nowSec ops order t t' k hcov,
+    fun h1 h2 h3 => compaction_invisible_partial s0 hw hnz alg nowSec ops order t t' k hcov h1 h2 h3⟩
 
 
 /-! ## reads before the commit = reads without compaction; judge predicates -/
@@ -354,14 +357,14 @@ theorem emptyBlob_iff (s : CVol) (k : Nat) : EmptyBlob s k ↔ isEmptyBlob s k =
     simp
 
 /-- the statement of the property, literally: reads(commit(compact s) during) = reads(apply during s) -/
-theorem compaction_invisible_vs_uncompacted (s0 : CVol) (hw : WF s0) (alg nowSec : Nat) (ops : List (Nat × Op))
+theorem compaction_invisible_vs_uncompacted (s0 : CVol) (hw : WF s0) (hnz : s0.ilog ≠ []) (alg nowSec : Nat) (ops : List (Nat × Op))
     (order : List Nat) (t t' k : Nat)
     (hcov : Covers s0 (beforeCommit s0 alg nowSec ops) order)
     (hne : ¬ EmptyBlob (beforeCommit s0 alg nowSec ops) k)
     (httl : ¬ TtlDropped s0 (beforeCommit s0 alg nowSec ops) nowSec k)
     (hcut : NoTruncation (beforeCommit s0 alg nowSec ops) order t) :
     view (afterCommit s0 alg nowSec ops order t) t' k = view (runOps s0 ops) t' k := by
-  rw [compaction_invisible_partial s0 hw alg nowSec ops order t t' k hcov hne httl hcut, reads_ignore_compaction]
+  rw [compaction_invisible_partial s0 hw hnz alg nowSec ops order t t' k hcov hne httl hcut, reads_ignore_compaction]
 
 /-! ## the full-strength statement is false of the code: witnesses (replayed on the real code in corpus/C04/witnesses.ops) -/
 
@@ -388,13 +391,20 @@ theorem ttl_filter_witness :
     let s0 := runOps fresh [(1, .write 1 7 c)]
     view (beforeCommit s0 2 100 []) 9 1 = some (7, c) ∧ view (afterCommit s0 2 100 [] [] 5) 9 1 = none := by decide
 
+/-- `Compact` on a volume whose .idx is still empty + a write while the copy runs: makeupDiff fails
+    (loop underflow), the commit discards .cpd/.cpx and reloads the old files: nothing is compacted
+    (reads unaffected) -/
+theorem discarded_on_empty_idx_witness :
+    (afterCommit fresh 2 100 [(3, .write 1 7 (blob "aa"))] [1] 5).rev = 0 ∧
+    view (afterCommit fresh 2 100 [(3, .write 1 7 (blob "aa"))] [1] 5) 9 1 = some (7, blob "aa") := by decide
+
 /-- the hypotheses of `compaction_invisible_partial` are satisfiable -/
 example :
     let s0 := runOps fresh [(1, .write 1 7 (blob "aa")), (2, .write 2 7 (blob "bb")), (3, .delete 1 7)]
-    Covers s0 (beforeCommit s0 2 100 []) [] ∧ ¬ EmptyBlob (beforeCommit s0 2 100 []) 2 ∧
+    s0.ilog ≠ [] ∧ Covers s0 (beforeCommit s0 2 100 []) [] ∧ ¬ EmptyBlob (beforeCommit s0 2 100 []) 2 ∧
     NoTruncation (beforeCommit s0 2 100 []) [] 5 ∧
     view (afterCommit s0 2 100 [] [] 5) 9 2 = some (7, blob "bb") ∧ view (afterCommit s0 2 100 [] [] 5) 9 1 = none := by
-  refine ⟨?_, ?_, by unfold NoTruncation; decide, by decide, by decide⟩
+  refine ⟨by decide, ?_, ?_, by unfold NoTruncation; decide, by decide, by decide⟩
   · intro k hk
     simp [beforeCommit, runOps, compact, lastFor] at hk
   · intro ⟨off, h⟩
